@@ -632,7 +632,7 @@ def c14_concrete_case(args):
     for gen in ("dbc", "can_c"):
         ob = f"concrete/{gen}/{kind}/{schema.describe()}"
         res["obligations"].append(ob)
-        p, before, after = real_plugin_run(gen, text, fits)
+        p, before, after = real_plugin_run(gen, text, fits, warmup=True)
         import json
         try:
             st = json.loads((p.stdout.strip().splitlines() or ["{}"])[-1])
@@ -648,7 +648,7 @@ def c14_concrete_case(args):
             if not st.get("ok"):
                 bad = f"'{gen}' generation failed for a binding of <= 64 bits: {p.stderr[-160:]}"
         if bad:
-            path = write_replay("C14", {"kind": "c14_concrete", "generator": gen, "schema_text": text, "fits": fits,
+            path = write_replay("C14", {"kind": "c14_concrete", "generator": gen, "schema_text": text, "fits": fits, "warmup": True,
                                         "property": "C14", "what": bad})
             ok, t = run_replay(path)
             if ok:
